@@ -176,6 +176,8 @@ FamModDef == {"lit", "var", "bin", "module", "dot", "letuse"}
 FamFuncUse == {"lit", "var", "bin", "func", "select", "list", "letuse", "exprstmt"}
 PreShadow == << LetS(n_a, L(StrV(<< "a" >>))), LetS(n_x, L(StrV(<< "b" >>))) >>   \* outer a, x are strings; Sigs2's parameters a, x are integers
 NamesBC == << n_b, n_c >>
+FamCmpData == {"lit", "list", "tuple", "bin", "let"}            \* == and != between lists and tuples of every small shape
+OpsEqNe == {"eq", "ne"}
 FamFuncSel == {"lit", "var", "bin", "dot", "func", "letuse"}      \* bodies that select fields / elements of a parameter
 SigsTup == << << Fld(n_t, TupleV(<< Fld(n_a, IntV(1)), Fld(n_b, IntV(2)) >>)) >>,
               << Fld(n_l, ListV(<< IntV(1), IntV(2) >>)) >> >>
